@@ -12,6 +12,15 @@
 //  5. concurrency: N goroutines store and load one key on a disk bucket with the real file
 //     locker and seeded yields at the verif hook points.
 //  6. the cache provider with a store that loses writes.
+//  7. the writer step machine: every traced store — files copied by the REAL parallel
+//     storage.Copy, every Write split in 16-byte pieces — is replayed action by action
+//     (acquire / truncate / grow / fill / fail / commit / crash, in the traced order) through the
+//     Lean `runActs`: complete stores, every crash prefix, every fault schedule, and
+//     multi-writer histories (2-3 writers, one blocked on the lock while another is mid-store,
+//     faults, crashes, leftover / invalid / unparsable markers).
+//  8. the write phase as a function of the fault schedule (Lean `storeRun`, built on C15's
+//     copyAll / atomicRun) against the real store; the tar writer (one atomic object) under
+//     every failing step and every crash point.
 //
 // Oracle (implementation only): a load is "not cached", content whose files equal the pinned
 // content, or a digest-mismatch error — never other content; store returned nil ⇒ next load is a
@@ -41,13 +50,13 @@ import (
 	"github.com/bufbuild/buf/private/bufpkg/bufmodule/bufmodulestore"
 	"github.com/bufbuild/buf/private/bufpkg/bufmodule/bufmoduletesting"
 	"github.com/bufbuild/buf/private/bufpkg/bufparse"
+	"github.com/bufbuild/buf/private/pkg/encoding"
 	"github.com/bufbuild/buf/private/pkg/filelock"
 	"github.com/bufbuild/buf/private/pkg/normalpath"
 	"github.com/bufbuild/buf/private/pkg/storage"
 	"github.com/bufbuild/buf/private/pkg/storage/storagearchive"
 	"github.com/bufbuild/buf/private/pkg/storage/storagemem"
 	"github.com/bufbuild/buf/private/pkg/storage/storageos"
-	"github.com/bufbuild/buf/private/pkg/thread"
 	"github.com/bufbuild/buf/private/pkg/uuidutil"
 	"github.com/bufbuild/buf/private/pkg/verifhook"
 	"github.com/bufbuild/verifharness/internal/bk"
@@ -65,69 +74,179 @@ func must(err error) {
 }
 
 // ---------------------------------------------------------------------------------------
-// tracing / fault-injecting ReadWriteBucket
+// tracing / fault-injecting ReadWriteBucket with disk semantics, shared by several writers
+//
+// One `disk` is the cache directory: a memory bucket that is updated the way storageos updates
+// a directory — a plain Put creates/truncates the object at once (os.Create), every Write
+// appends to it, an atomic Put becomes visible only on a successful Close.  Every writer
+// (process) gets its own `tbucket` view with its own fault schedule / crash point; all views
+// append to one global trace and one global history of model actions, in the order in which
+// the primitives really happened (the file copies of one store run in parallel).
+
+const pieceSize = 16        // every Write of a plain object is split in pieces of this size: real torn prefixes
+const atomicPieceSize = 256 // pieces of an atomic object (marker, tar archive)
 
 type prim struct {
-	kind   byte // p w c
-	path   string
-	idx    int
-	atomic bool
-	data   string // for w
+	w       int  // writer
+	kind    byte // p w c
+	path    string
+	idx     int // piece index for w
+	atomic  bool
+	data    string // for w
+	fault   bool   // an injected fault fired here
+	hbefore int    // len(history) before this primitive
 }
 
 func (p prim) String() string {
 	return fmt.Sprintf("%c(%s#%d atomic=%v)", p.kind, p.path, p.idx, p.atomic)
 }
 
+// fkey names a primitive independently of the interleaving (as BufModel.Faults.Fault does).
+type fkey struct {
+	path string
+	kind byte
+	idx  int
+}
+
 var errInjected = errors.New("injected fault")
+var errDead = errors.New("process is dead")
+
+type disk struct {
+	mu    sync.Mutex
+	mem   storage.ReadWriteBucket
+	trace []prim
+	hist  []string       // model actions, global order
+	index map[string]int // full path of a payload object -> index into the model's payload
+	mpath string         // full path of module.yaml
+	// the lock file
+	lmu     sync.Mutex
+	lcond   *sync.Cond
+	readers int
+	writer  bool
+	holder  *tbucket // the writer holding the exclusive lock
+	blocked chan int // a writer that found the lock exclusively held reports here (if non-nil)
+	// oracle for complete_is_stable: primitives that modified the entry while it carried a valid marker
+	validMarker func(content string) bool
+	afterValid  []string
+}
+
+func newDisk(mem storage.ReadWriteBucket) *disk {
+	d := &disk{mem: mem, index: map[string]int{}}
+	d.lcond = sync.NewCond(&d.lmu)
+	return d
+}
 
 type tbucket struct {
 	storage.ReadBucket
-	delegate storage.ReadWriteBucket
-	mu       sync.Mutex
-	trace    []prim
-	faults   map[int]bool // position in trace (sequential runs only)
-	fired    int
-	drop     bool // lose every write silently (for the provider check)
+	d         *disk
+	w         int
+	faults    map[fkey]bool
+	crashAt   int  // own primitive counter at which the process dies (-1: never)
+	pauseAt   int  // own primitive counter at which the process pauses (-1: never)
+	pauseLock bool // pause between the shared-lock check and the exclusive Lock
+	paused    chan struct{}
+	resume    chan struct{}
+	n         int
+	fired     int
+	firedKeys []fkey
+	dead      bool
+	drop      bool // lose every write silently (for the provider check)
+	acquired  bool // got the exclusive lock
+	nAtLock   int  // own primitive counter when it got the lock
+	released  bool // the model-visible release (fail / commitFail / commit / crash) has happened
+	committed bool // marker put succeeded
+	markerTry bool // a primitive on module.yaml was issued
 }
 
-func newT(delegate storage.ReadWriteBucket, faults ...int) *tbucket {
-	m := map[int]bool{}
+func (d *disk) writer_(w int, faults ...fkey) *tbucket {
+	m := map[fkey]bool{}
 	for _, f := range faults {
 		m[f] = true
 	}
-	return &tbucket{ReadBucket: delegate, delegate: delegate, faults: m}
+	return &tbucket{ReadBucket: d.mem, d: d, w: w, faults: m, crashAt: -1, pauseAt: -1}
 }
 
-func (b *tbucket) hit(p prim) bool {
-	b.mu.Lock()
-	defer b.mu.Unlock()
-	pos := len(b.trace)
-	b.trace = append(b.trace, p)
-	if b.faults[pos] {
-		b.fired++
-		return true
+// newT: a single-writer bucket over a fresh disk (tar layout, provider check).
+func newT(delegate storage.ReadWriteBucket, faults ...fkey) *tbucket {
+	return newDisk(delegate).writer_(0, faults...)
+}
+
+// enter is called (with d.mu held) at the start of every primitive; it reports whether the
+// process is (or just became) dead and whether a scheduled fault fires.
+func (b *tbucket) enter(p prim) (dead bool, fault bool) {
+	if b.dead {
+		return true, false
 	}
-	return false
+	pos := b.n
+	b.n++
+	if b.crashAt == pos {
+		b.dead = true
+		b.d.hist = append(b.d.hist, fmt.Sprintf("z%d", b.w))
+		return true, false
+	}
+	p.w = b.w
+	p.hbefore = len(b.d.hist)
+	k := fkey{p.path, p.kind, p.idx}
+	if b.faults[k] {
+		b.fired++
+		b.firedKeys = append(b.firedKeys, k)
+		p.fault = true
+	}
+	if p.path == b.d.mpath {
+		b.markerTry = true
+	}
+	if b.d.validMarker != nil && !p.fault && !b.drop {
+		if mk, err := bk.ReadAll(ctx, b.d.mem, b.d.mpath); err == nil && b.d.validMarker(mk) {
+			b.d.afterValid = append(b.d.afterValid, fmt.Sprintf("writer %d: %v", b.w, p))
+		}
+	}
+	b.d.trace = append(b.d.trace, p)
+	return false, p.fault
+}
+
+func (b *tbucket) maybePause() {
+	// widen the schedule of the parallel file copies
+	runtime.Gosched()
+	b.d.mu.Lock()
+	hit := b.pauseAt >= 0 && b.n == b.pauseAt && !b.dead
+	if hit {
+		b.pauseAt = -1
+	}
+	b.d.mu.Unlock()
+	if hit {
+		close(b.paused)
+		<-b.resume
+	}
+}
+
+func (b *tbucket) act(format string, args ...any) {
+	b.d.hist = append(b.d.hist, fmt.Sprintf(format, args...))
 }
 
 func (b *tbucket) Put(ctx context.Context, path string, opts ...storage.PutOption) (storage.WriteObjectCloser, error) {
 	atomic := storage.NewPutOptions(opts).Atomic()
-	if b.hit(prim{kind: 'p', path: path, atomic: atomic}) {
+	b.maybePause()
+	b.d.mu.Lock()
+	defer b.d.mu.Unlock()
+	dead, fault := b.enter(prim{kind: 'p', path: path, atomic: atomic})
+	if dead {
+		return nil, errDead
+	}
+	if fault {
 		return nil, errInjected
 	}
-	if b.drop {
-		return &tobj{b: b, path: path, atomic: atomic}, nil
+	o := &tobj{b: b, path: path, atomic: atomic}
+	if !atomic && !b.drop {
+		must(bk.PutString(ctx, b.d.mem, path, ""))
+		if i, ok := b.d.index[path]; ok {
+			b.act("t%d.%d", b.w, i)
+		}
 	}
-	w, err := b.delegate.Put(ctx, path, opts...)
-	if err != nil {
-		return nil, err
-	}
-	return &tobj{b: b, path: path, atomic: atomic, w: w}, nil
+	return o, nil
 }
-func (b *tbucket) Delete(ctx context.Context, path string) error { return b.delegate.Delete(ctx, path) }
+func (b *tbucket) Delete(ctx context.Context, path string) error { return b.d.mem.Delete(ctx, path) }
 func (b *tbucket) DeleteAll(ctx context.Context, prefix string) error {
-	return b.delegate.DeleteAll(ctx, prefix)
+	return b.d.mem.DeleteAll(ctx, prefix)
 }
 func (b *tbucket) SetExternalAndLocalPathsSupported() bool { return false }
 
@@ -135,35 +254,257 @@ type tobj struct {
 	b      *tbucket
 	path   string
 	atomic bool
-	w      storage.WriteObjectCloser
+	buf    string
 	n      int
+	bad    bool // a Write of this object failed
 }
 
 func (o *tobj) Write(p []byte) (int, error) {
-	i := o.n
-	o.n++
-	if o.b.hit(prim{kind: 'w', path: o.path, idx: i, atomic: o.atomic, data: string(p)}) {
-		return 0, errInjected
+	written := 0
+	size := pieceSize
+	if o.atomic {
+		size = atomicPieceSize
 	}
-	if o.w == nil {
-		return len(p), nil
+	for written < len(p) {
+		end := written + size
+		if end > len(p) {
+			end = len(p)
+		}
+		piece := string(p[written:end])
+		o.b.maybePause()
+		o.b.d.mu.Lock()
+		i := o.n
+		o.n++
+		dead, fault := o.b.enter(prim{kind: 'w', path: o.path, idx: i, atomic: o.atomic, data: piece})
+		if dead {
+			o.b.d.mu.Unlock()
+			return written, errDead
+		}
+		if fault {
+			o.bad = true
+			o.b.d.mu.Unlock()
+			return written, errInjected
+		}
+		o.buf += piece
+		if !o.atomic && !o.b.drop {
+			must(bk.PutString(ctx, o.b.d.mem, o.path, o.buf))
+			if k, ok := o.b.d.index[o.path]; ok {
+				o.b.act("g%d.%d.%d", o.b.w, k, len(o.buf))
+			}
+		}
+		o.b.d.mu.Unlock()
+		written = end
 	}
-	return o.w.Write(p)
+	return written, nil
 }
 func (o *tobj) Close() error {
-	if o.b.hit(prim{kind: 'c', path: o.path, atomic: o.atomic}) {
-		if o.w != nil {
-			o.w.Close()
-		}
+	o.b.maybePause()
+	o.b.d.mu.Lock()
+	defer o.b.d.mu.Unlock()
+	dead, fault := o.b.enter(prim{kind: 'c', path: o.path, atomic: o.atomic})
+	if dead {
+		return errDead
+	}
+	if fault {
+		// plain object: what was written stays; atomic object: the temp file is removed
 		return errInjected
 	}
-	if o.w == nil {
+	if o.b.drop {
 		return nil
 	}
-	return o.w.Close()
+	if o.atomic {
+		if o.bad {
+			// storageos: a failed write makes Close remove the temp file and report the error
+			return errInjected
+		}
+		must(bk.PutString(ctx, o.b.d.mem, o.path, o.buf))
+		if o.path == o.b.d.mpath {
+			o.b.committed = true
+			o.b.act("c%d", o.b.w)
+		}
+		return nil
+	}
+	if k, ok := o.b.d.index[o.path]; ok && !o.bad {
+		o.b.act("f%d.%d", o.b.w, k)
+	}
+	return nil
 }
 func (o *tobj) SetExternalPath(string) error { return storage.ErrSetExternalPathUnsupported }
 func (o *tobj) SetLocalPath(string) error    { return storage.ErrSetLocalPathUnsupported }
+
+// wlocker: the lock file as seen by one writer (a readers-writer lock, like flock); it records
+// when the writer found the lock taken (the model's acquire is then a no-op) and when it got it.
+type wlocker struct{ b *tbucket }
+
+type unlockFn func() error
+
+func (f unlockFn) Unlock() error { return f() }
+
+func (l wlocker) wait(taken func() bool) {
+	d := l.b.d
+	if taken() {
+		// blocked. While another writer is inside its store the model's acquire is a no-op; record
+		// it (atomically with respect to that writer's crash / release events).
+		d.mu.Lock()
+		rec := d.writer && d.holder != nil && !d.holder.dead && !d.holder.released
+		if rec {
+			l.b.act("a%d", l.b.w)
+		}
+		d.mu.Unlock()
+		if d.writer && d.blocked != nil {
+			d.blocked <- l.b.w
+		}
+	}
+	for taken() {
+		d.lcond.Wait()
+	}
+}
+
+func (l wlocker) Lock(context.Context, string, ...filelock.LockOption) (filelock.Unlocker, error) {
+	d := l.b.d
+	b := l.b
+	if b.pauseLock {
+		// between the check under the shared lock and the exclusive Lock: others may run
+		b.pauseLock = false
+		close(b.paused)
+		<-b.resume
+	}
+	d.lmu.Lock()
+	defer d.lmu.Unlock()
+	l.wait(func() bool { return d.writer || d.readers > 0 })
+	d.writer = true
+	d.holder = b
+	d.mu.Lock()
+	b.acquired = true
+	b.nAtLock = b.n
+	b.act("a%d", b.w)
+	d.mu.Unlock()
+	return unlockFn(func() error {
+		// the store is returning.  With an error after having written something: the model's fail
+		// (commitFail if the marker put was reached).  The event is recorded BEFORE the lock is
+		// really released, so that the next writer's acquire comes after it.
+		d.mu.Lock()
+		if !b.dead && !b.committed && b.n > b.nAtLock {
+			if b.markerTry {
+				b.act("k%d", b.w)
+			} else {
+				b.act("x%d", b.w)
+			}
+		}
+		b.released = true
+		d.mu.Unlock()
+		d.lmu.Lock()
+		d.writer = false
+		d.holder = nil
+		d.lcond.Broadcast()
+		d.lmu.Unlock()
+		return nil
+	}), nil
+}
+
+func (l wlocker) RLock(context.Context, string, ...filelock.LockOption) (filelock.Unlocker, error) {
+	d := l.b.d
+	d.lmu.Lock()
+	defer d.lmu.Unlock()
+	l.wait(func() bool { return d.writer })
+	d.readers++
+	return unlockFn(func() error {
+		d.lmu.Lock()
+		d.readers--
+		d.lcond.Broadcast()
+		d.lmu.Unlock()
+		return nil
+	}), nil
+}
+
+// world: one module's cache entry on a disk, with the payload indexing of the model line.
+type world struct {
+	d          *disk
+	m          mod
+	filesOrder []string // module file paths (relative to files/), sorted
+	sidesOrder []string
+}
+
+func newWorld(m mod, init map[string]string) *world {
+	mem := storagemem.NewReadWriteBucket()
+	for p, c := range init {
+		must(bk.PutString(ctx, mem, m.dirPath+"/"+p, c))
+	}
+	wd := &world{d: newDisk(mem), m: m, filesOrder: keysOf(m.files), sidesOrder: keysOf(m.sides)}
+	// the side files in the order in which putModuleData writes them: buf.yaml, then buf.lock
+	sort.SliceStable(wd.sidesOrder, func(i, j int) bool {
+		return strings.HasPrefix(wd.sidesOrder[i], "v1_buf_yaml/") && !strings.HasPrefix(wd.sidesOrder[j], "v1_buf_yaml/")
+	})
+	for i, f := range wd.filesOrder {
+		wd.d.index[m.dirPath+"/files/"+f] = i
+	}
+	for i, s := range wd.sidesOrder {
+		wd.d.index[m.dirPath+"/"+s] = len(wd.filesOrder) + i
+	}
+	wd.d.mpath = m.dirPath + "/module.yaml"
+	wd.d.validMarker = func(c string) bool { return c == m.canon || (m.otherDep != "" && c == m.otherDep) }
+	return wd
+}
+
+// store runs the REAL putModuleData as writer tb (parallel file copies) and appends the action
+// with which the store returned. Result: the model's pc of that writer.
+func (wd *world) store(tb *tbucket) (pc string, err error) {
+	err = bufmodulestore.NewModuleDataStore(logger, tb, wlocker{tb}).PutModuleDatas(ctx, []bufmodule.ModuleData{wd.m.data})
+	wd.d.mu.Lock()
+	defer wd.d.mu.Unlock()
+	switch {
+	case tb.dead:
+		return "crashed", err
+	case !tb.acquired:
+		// returned from the marker check under the shared lock (valid marker: nil; unparsable
+		// marker: the YAML error) — the model's acquire decides the same way
+		tb.act("a%d", tb.w)
+	}
+	if err == nil {
+		return "ok", nil
+	}
+	return "err", err
+}
+
+func hexTok(c string) string { return hx.Enc(c) }
+
+func encOrderedHex(keys []string, mm map[string]string) string {
+	if len(keys) == 0 {
+		return "-"
+	}
+	parts := make([]string, len(keys))
+	for i, k := range keys {
+		parts[i] = hx.Enc(k) + "=" + hexTok(mm[k])
+	}
+	return strings.Join(parts, ",")
+}
+
+// entryEncHex: entry-relative path = hex content; module.yaml = marker token.
+func entryEncHex(m mod, entry map[string]string) string {
+	return encObjs(entry, func(p, c string) string {
+		if p == "module.yaml" {
+			return markerToken(m, c)
+		}
+		return hexTok(c)
+	})
+}
+
+func (wd *world) runLine(init map[string]string, nWriters int, hist []string) string {
+	acts := "-"
+	if len(hist) > 0 {
+		acts = strings.Join(hist, ",")
+	}
+	return "run\t" + encOrderedHex(wd.filesOrder, wd.m.files) + "\t" + encOrderedHex(wd.sidesOrder, wd.m.sides) + "\t" +
+		entryEncHex(wd.m, init) + "\t" + strconv.Itoa(nWriters) + "\t" + acts
+}
+
+func implRunOut(m mod, entry map[string]string, pcs []string) string {
+	e := entryEncHex(m, entry)
+	if e == "-" {
+		e = ""
+	}
+	return e + "|lock=-|" + strings.Join(pcs, ",")
+}
 
 // ---------------------------------------------------------------------------------------
 // a generated module
@@ -307,6 +648,20 @@ func tokenOf(c string) string {
 	return t
 }
 
+// the shape of bufmodulestore's externalModuleData (YAML parsing is a library parameter: the
+// harness asks the same decoder whether the bytes parse)
+type extModuleData struct {
+	Version  string `json:"version,omitempty" yaml:"version,omitempty"`
+	FilesDir string `json:"files_dir,omitempty" yaml:"files_dir,omitempty"`
+	Deps     []struct {
+		Name   string `json:"name,omitempty" yaml:"name,omitempty"`
+		Commit string `json:"commit,omitempty" yaml:"commit,omitempty"`
+		Digest string `json:"digest,omitempty" yaml:"digest,omitempty"`
+	} `json:"deps,omitempty" yaml:"deps,omitempty"`
+	V1BufYAMLFile string `json:"v1_buf_yaml_file,omitempty" yaml:"v1_buf_yaml_file,omitempty"`
+	V1BufLockFile string `json:"v1_buf_lock_file,omitempty" yaml:"v1_buf_lock_file,omitempty"`
+}
+
 func markerToken(m mod, c string) string {
 	switch {
 	case c == m.canon:
@@ -314,6 +669,10 @@ func markerToken(m mod, c string) string {
 	case m.otherDep != "" && c == m.otherDep:
 		return "M:otherdeps"
 	default:
+		var e extModuleData
+		if err := encoding.UnmarshalYAMLNonStrict([]byte(c), &e); err != nil {
+			return "M:unparsable"
+		}
 		return "Minvalid" + strconv.Itoa(len(c))
 	}
 }
@@ -479,6 +838,11 @@ func (c caseCtx) repair(entry map[string]string, how string) {
 	if mk, ok := entry["module.yaml"]; ok && (mk == c.m.canon || (c.m.otherDep != "" && mk == c.m.otherDep)) {
 		return
 	}
+	if mk, ok := entry["module.yaml"]; !ok || markerToken(c.m, mk) != "M:unparsable" {
+		// the write phase as a function (Lean storeRun over C15's copyAll/atomicRun), fault-free
+		wd := newWorld(c.m, nil)
+		c.run.Case(wd.storeRunLine(entry, nil), implStoreOut(err, 0, c.m, entryOf(b, c.m)), true)
+	}
 	if err != nil || class != "hit" || !sameFiles(files, c.m.files) {
 		c.fail("later-store-does-not-repair", fmt.Sprintf("%s: after a fault-free store on this state: err=%v, load=%s", how, err, class),
 			map[string]any{"part": c.part, "how": how, "entry_paths": keysOf(entry)})
@@ -490,6 +854,9 @@ func materialise(m mod, trace []prim, k int) map[string]string {
 	entry := map[string]string{}
 	pending := map[string]*strings.Builder{} // atomic objects not yet closed
 	for _, p := range trace[:k] {
+		if p.fault {
+			continue
+		}
 		rel := strings.TrimPrefix(p.path, m.dirPath+"/")
 		switch p.kind {
 		case 'p':
@@ -514,15 +881,84 @@ func materialise(m mod, trace []prim, k int) map[string]string {
 	return entry
 }
 
+// inFlightMax: the largest number of plain objects simultaneously between Put and Close.
+func inFlightMax(trace []prim) int {
+	open, best := map[string]bool{}, 0
+	for _, p := range trace {
+		if p.atomic {
+			continue
+		}
+		switch p.kind {
+		case 'p':
+			if !p.fault {
+				open[p.path] = true
+			}
+		case 'c':
+			delete(open, p.path)
+		}
+		if len(open) > best {
+			best = len(open)
+		}
+	}
+	return best
+}
+
+func (wd *world) storeRunLine(init map[string]string, fs []fkey) string {
+	var parts []string
+	mfail := -1
+	for _, f := range fs {
+		if f.path == wd.d.mpath {
+			step := map[byte]int{'p': 0, 'w': 1, 'c': 2}[f.kind]
+			if mfail < 0 || step < mfail {
+				mfail = step
+			}
+			continue
+		}
+		parts = append(parts, hx.Enc(strings.TrimPrefix(f.path, wd.m.dirPath+"/"))+":"+string(f.kind)+":"+strconv.Itoa(f.idx))
+	}
+	faults, mf := "-", "-"
+	if len(parts) > 0 {
+		faults = strings.Join(parts, ",")
+	}
+	if mfail >= 0 {
+		mf = strconv.Itoa(mfail)
+	}
+	return "storerun\t" + encOrderedHex(wd.filesOrder, wd.m.files) + "\t" + encOrderedHex(wd.sidesOrder, wd.m.sides) + "\t" +
+		entryEncHex(wd.m, init) + "\t" + faults + "\t" + mf
+}
+
+func implStoreOut(err error, fired int, m mod, entry map[string]string) string {
+	e := entryEncHex(m, entry)
+	if e == "-" {
+		e = ""
+	}
+	es := "0"
+	if err != nil {
+		es = "1"
+	}
+	return "err=" + es + "|fired=" + strconv.Itoa(fired) + "|" + e
+}
+
+func (tb *tbucket) firedOutsideMarker() int {
+	n := 0
+	for _, k := range tb.firedKeys {
+		if k.path != tb.d.mpath {
+			n++
+		}
+	}
+	return n
+}
+
 func partCrash(run *hx.Run, idx int, m mod) {
 	c := caseCtx{run, idx, m, "crash"}
-	old := thread.Parallelism()
-	thread.SetParallelism(1)
-	defer thread.SetParallelism(old)
-	tb := newT(storagemem.NewReadWriteBucket())
-	store := bufmodulestore.NewModuleDataStore(logger, tb, filelock.NewNopLocker())
-	must(store.PutModuleDatas(ctx, []bufmodule.ModuleData{m.data}))
-	trace := tb.trace
+	// the real store with its real parallel file copies
+	wd := newWorld(m, nil)
+	tb := wd.d.writer_(0)
+	pc, err := wd.store(tb)
+	must(err)
+	trace := wd.d.trace
+	hist := wd.d.hist
+	run.Count("crash:max-files-in-flight=" + strconv.Itoa(inFlightMax(trace)))
 	// trace shape (oracle): the marker is written atomically and is the last object closed
 	last := trace[len(trace)-1]
 	if !(last.kind == 'c' && last.atomic && strings.HasSuffix(last.path, "/module.yaml")) {
@@ -531,116 +967,246 @@ func partCrash(run *hx.Run, idx int, m mod) {
 	for k := 0; k <= len(trace); k++ {
 		entry := materialise(m, trace, k)
 		exp := k == len(trace)
-		class := c.judge(entry, fmt.Sprintf("crash after %d of %d primitives", k, len(trace)), &exp)
-		_ = class
+		how := fmt.Sprintf("crash after %d of %d primitives", k, len(trace))
+		c.judge(entry, how, &exp)
 		if k < len(trace) {
-			c.repair(entry, fmt.Sprintf("crash after %d of %d primitives", k, len(trace)))
+			c.repair(entry, how)
+			// the model's writer step machine replays exactly this interleaving, then the crash
+			h := append(append([]string{}, hist[:trace[k].hbefore]...), "z0")
+			run.Case(wd.runLine(nil, 1, h), implRunOut(m, entry, []string{"crashed"}), true)
 		}
 	}
-	// the model's writer step machine against the real store: Put = truncate, last Write of a
-	// plain object = fill, atomic marker Close = commit
-	var acts []string
-	for i, p := range trace {
-		switch {
-		case p.kind == 'p' && !p.atomic:
-			acts = append(acts, "t0")
-		case p.kind == 'w' && !p.atomic:
-			if i+1 < len(trace) && trace[i+1].kind == 'c' {
-				acts = append(acts, "f0")
-			}
-		case p.kind == 'c' && p.atomic:
-			acts = append(acts, "c0")
-		}
+	// … and the complete store: Put = truncate, every Write = grow, Close = fill, the atomic
+	// marker Close = commit, in the order in which the parallel copies really ran
+	run.Case(wd.runLine(nil, 1, hist), implRunOut(m, entryOf(wd.d.mem, m), []string{pc}), true)
+}
+
+// faultKeys: the primitives of a fault-free store, named independently of the interleaving.
+func faultKeys(m mod) []fkey {
+	wd := newWorld(m, nil)
+	_, err := wd.store(wd.d.writer_(0))
+	must(err)
+	var keys []fkey
+	for _, p := range wd.d.trace {
+		keys = append(keys, fkey{p.path, p.kind, p.idx})
 	}
-	// payload order as the store wrote it
-	order := map[string]string{}
-	var filesOrder, sidesOrder []string
-	for _, p := range trace {
-		if p.kind == 'p' && !p.atomic {
-			rel := strings.TrimPrefix(p.path, m.dirPath+"/")
-			if strings.HasPrefix(rel, "files/") {
-				filesOrder = append(filesOrder, strings.TrimPrefix(rel, "files/"))
-			} else {
-				sidesOrder = append(sidesOrder, rel)
-			}
-		}
-	}
-	_ = order
-	encOrdered := func(keys []string, mm map[string]string) string {
-		if len(keys) == 0 {
-			return "-"
-		}
-		parts := make([]string, len(keys))
-		for i, k := range keys {
-			parts[i] = hx.Enc(k) + "=" + tokenOf(mm[k])
-		}
-		return strings.Join(parts, ",")
-	}
-	final := entryOf(tb.delegate, m)
-	kvs := make([]bk.KV, 0, len(final))
-	for p, cc := range final {
-		t := tokenOf(cc)
-		if p == "module.yaml" {
-			t = markerToken(m, cc)
-		}
-		if t == "-" {
-			t = ""
-		}
-		kvs = append(kvs, bk.KV{K: p, V: t})
-	}
-	allFiles := map[string]string{}
-	for k, v := range m.files {
-		allFiles[k] = v
-	}
-	// the store copies every file of the module data bucket (which holds module files only)
-	if len(filesOrder) == len(m.files) {
-		run.Case("run\t"+encOrdered(filesOrder, allFiles)+"\t"+encOrdered(sidesOrder, m.sides)+"\t1\ta0,"+strings.Join(acts, ","),
-			bk.Dump(kvs)+"|lock=-|ok", true)
-	}
+	return keys
 }
 
 func partFaults(run *hx.Run, idx int, m mod) {
 	c := caseCtx{run, idx, m, "fault"}
-	old := thread.Parallelism()
-	thread.SetParallelism(1)
-	defer thread.SetParallelism(old)
-	tb0 := newT(storagemem.NewReadWriteBucket())
-	must(bufmodulestore.NewModuleDataStore(logger, tb0, filelock.NewNopLocker()).PutModuleDatas(ctx, []bufmodule.ModuleData{m.data}))
-	n := len(tb0.trace)
-	var scheds [][]int
+	keys := faultKeys(m)
+	n := len(keys)
+	var scheds [][]fkey
 	for i := 0; i < n; i++ {
-		scheds = append(scheds, []int{i})
+		scheds = append(scheds, []fkey{keys[i]})
 	}
 	if run.Thorough() {
 		for i := 0; i < n; i++ {
 			for j := i + 1; j < n && len(scheds) < 400; j++ {
-				scheds = append(scheds, []int{i, j})
+				scheds = append(scheds, []fkey{keys[i], keys[j]})
 			}
 		}
 	}
 	for _, fs := range scheds {
-		tb := newT(storagemem.NewReadWriteBucket(), fs...)
-		err := bufmodulestore.NewModuleDataStore(logger, tb, filelock.NewNopLocker()).PutModuleDatas(ctx, []bufmodule.ModuleData{m.data})
-		how := fmt.Sprintf("store with failing primitive(s) %v (%v)", fs, tb0.trace[fs[0]])
+		wd := newWorld(m, nil)
+		tb := wd.d.writer_(0, fs...)
+		pc, err := wd.store(tb)
+		how := fmt.Sprintf("store with failing primitive(s) %v", fs)
 		if tb.fired > 0 && err == nil {
-			c.fail("store-fault-not-reported", how+": PutModuleDatas returned nil", map[string]any{"faults": fs})
+			c.fail("store-fault-not-reported", how+": PutModuleDatas returned nil", map[string]any{"faults": fmt.Sprint(fs)})
 		}
-		entry := entryOf(tb.delegate, m)
+		entry := entryOf(wd.d.mem, m)
 		var exp *bool
 		if err == nil {
 			t := true
 			exp = &t
 		}
-		class := c.judge(entry, how, exp)
-		if err != nil && class == "hit" && tb.fired > 0 {
-			// a failed store that nevertheless left a complete, correct entry is harmless only if
-			// the content is right (checked in judge); the entry must not be *marked* complete by
-			// a store that failed before writing the marker
-			if _, ok := entry["module.yaml"]; ok && fs[0] < n-3 {
-				c.fail("failed-store-marked-complete", how+": store failed but the entry carries a valid marker", map[string]any{"faults": fs})
-			}
+		c.judge(entry, how, exp)
+		if mk, ok := entry["module.yaml"]; ok && err != nil && tb.fired > 0 && strings.HasPrefix(markerToken(m, mk), "M:") {
+			// the entry must not be MARKED complete by a store that failed
+			c.fail("failed-store-marked-complete", how+": store failed but the entry carries a valid marker", map[string]any{"faults": fmt.Sprint(fs)})
 		}
 		c.repair(entry, how)
+		// the step machine replays the traced interleaving (fail / commitFail where the store returned)
+		run.Case(wd.runLine(nil, 1, wd.d.hist), implRunOut(m, entry, []string{pc}), true)
+		// the write phase as a function of the fault schedule
+		run.Case(wd.storeRunLine(nil, fs), implStoreOut(err, tb.firedOutsideMarker(), m, entry), true)
+	}
+}
+
+// genInit: what earlier processes may have left in the entry directory.
+func genInit(r *hx.Rand, m mod) (map[string]string, string) {
+	payload := map[string]string{}
+	for f, c := range m.files {
+		payload["files/"+f] = c
+	}
+	for s, c := range m.sides {
+		payload[s] = c
+	}
+	torn := func() map[string]string {
+		e := map[string]string{}
+		for _, p := range keysOf(payload) {
+			switch r.Intn(4) {
+			case 0: // missing
+			case 1:
+				e[p] = payload[p] // complete
+			default:
+				e[p] = payload[p][:r.Intn(len(payload[p])+1)] // torn prefix
+			}
+		}
+		return e
+	}
+	switch r.Intn(9) {
+	case 0, 1:
+		return map[string]string{}, "empty"
+	case 2, 3, 4:
+		return torn(), "torn"
+	case 5:
+		e := torn()
+		e["module.yaml"] = "version: v0\nfiles_dir: files\n"
+		return e, "torn+invalid-marker"
+	case 6:
+		e := torn()
+		e["module.yaml"] = ""
+		return e, "torn+empty-marker"
+	case 7:
+		e := torn()
+		e["module.yaml"] = "garbage: [unclosed"
+		return e, "torn+unparsable-marker"
+	default:
+		e := map[string]string{}
+		for p, c := range payload {
+			e[p] = c
+		}
+		e["module.yaml"] = m.canon
+		return e, "complete"
+	}
+}
+
+// partMulti: histories of several writers over one entry — faults, crashes, a writer blocked on
+// the lock while another is mid-store — on the real store; the global history of primitives is
+// replayed by the Lean step machine and the end states are compared.
+func partMulti(run *hx.Run, idx int, m mod, r *hx.Rand) {
+	c := caseCtx{run, idx, m, "multi"}
+	keys := faultKeys(m)
+	for sc := 0; sc < run.N(4, 16); sc++ {
+		init, kind := genInit(r, m)
+		nW := 2 + r.Intn(2)
+		wd := newWorld(m, init)
+		wd.d.blocked = make(chan int, 64)
+		tbs := make([]*tbucket, nW)
+		plans := make([]string, nW)
+		for w := range tbs {
+			switch r.Intn(5) {
+			case 0, 1:
+				tbs[w] = wd.d.writer_(w)
+				plans[w] = "clean"
+			case 2:
+				tbs[w] = wd.d.writer_(w, hx.Pick(r, keys))
+				plans[w] = "fault"
+			case 3:
+				tbs[w] = wd.d.writer_(w, hx.Pick(r, keys), hx.Pick(r, keys))
+				plans[w] = "2faults"
+			default:
+				tbs[w] = wd.d.writer_(w)
+				tbs[w].crashAt = r.Intn(len(keys))
+				plans[w] = "crash"
+			}
+		}
+		pcs := make([]string, nW)
+		start := func(w int) chan struct{} {
+			done := make(chan struct{})
+			go func() {
+				defer close(done)
+				defer func() {
+					if p := recover(); p != nil {
+						pcs[w] = fmt.Sprint("panic:", p)
+					}
+				}()
+				pcs[w], _ = wd.store(tbs[w])
+			}()
+			return done
+		}
+		overlaps, lates := 0, 0
+		for w := 0; w < nW; {
+			tb := tbs[w]
+			overlap := w+1 < nW && r.Chance(1, 2)
+			late := overlap && r.Chance(1, 3)
+			if overlap {
+				if late {
+					tb.pauseLock = true
+				} else {
+					tb.pauseAt = r.Intn(len(keys))
+				}
+				tb.paused = make(chan struct{})
+				tb.resume = make(chan struct{})
+			}
+			done := start(w)
+			if !overlap {
+				<-done
+				w++
+				continue
+			}
+			select {
+			case <-tb.paused:
+				done2 := start(w + 1)
+				if late {
+					// writer w has checked the marker under the shared lock and not yet asked for
+					// the exclusive lock: the next writer runs its whole store in between
+					<-done2
+					lates++
+				} else {
+					// writer w is inside its store: the next one runs into the lock
+					select {
+					case <-wd.d.blocked:
+						overlaps++
+					case <-done2:
+					}
+				}
+				close(tb.resume)
+				<-done
+				<-done2
+				w += 2
+			case <-done:
+				w++ // returned before reaching the pause point
+			}
+		}
+		final := entryOf(wd.d.mem, m)
+		run.Case(wd.runLine(init, nW, wd.d.hist), implRunOut(m, final, pcs), true)
+		run.Count("multi:init=" + kind)
+		for _, p := range plans {
+			run.Count("multi:plan=" + p)
+		}
+		for _, pc := range pcs {
+			run.Count("multi:pc=" + strings.SplitN(pc, ":", 2)[0])
+		}
+		if overlaps > 0 {
+			run.Count("multi:writer-blocked-on-lock")
+		}
+		if lates > 0 {
+			run.Count("multi:store-between-check-and-lock")
+		}
+		if len(wd.d.afterValid) > 0 {
+			c.fail("entry-modified-after-marker", fmt.Sprintf("a writer modified the entry while it carried a valid marker (readers stream without the lock): %v", wd.d.afterValid[0]),
+				map[string]any{"part": "multi", "init": kind, "plans": plans, "history": strings.Join(wd.d.hist, ",")})
+		}
+		// oracle: some store returned nil ⇒ the entry loads with exactly the pinned files;
+		// whatever happened, a load never serves other content
+		class, files := loadReal(wd.d.mem, m, false)
+		anyOK := false
+		for _, pc := range pcs {
+			anyOK = anyOK || pc == "ok"
+		}
+		in := map[string]any{"part": "multi", "init": kind, "plans": plans, "pcs": pcs, "history": strings.Join(wd.d.hist, ",")}
+		switch {
+		case class == "hit" && !sameFiles(files, m.files):
+			c.fail("wrong-content-served", "multi-writer history: load returned other files", in)
+		case anyOK && class != "hit":
+			c.fail("store-nil-but-no-hit", "a store returned nil but the entry loads as "+class, in)
+		case class != "hit" && class != "miss" && class != "mismatch":
+			c.fail("load-other-error", "multi-writer history: "+class, in)
+		}
 	}
 }
 
@@ -715,13 +1281,13 @@ func tarOf(m mod, entry map[string]string) []byte {
 	return buf.Bytes()
 }
 
-func partTar(run *hx.Run, idx int, m mod) {
+func partTar(run *hx.Run, idx int, m mod, r *hx.Rand) {
 	c := caseCtx{run, idx, m, "tar"}
 	clean := storagemem.NewReadWriteBucket()
 	tb := newT(clean)
 	must(bufmodulestore.NewModuleDataStore(logger, tb, filelock.NewNopLocker(), bufmodulestore.ModuleDataStoreWithTar()).PutModuleDatas(ctx, []bufmodule.ModuleData{m.data}))
 	// the archive is written with one atomic put
-	for _, p := range tb.trace {
+	for _, p := range tb.d.trace {
 		if !p.atomic {
 			c.fail("tar-not-atomic", fmt.Sprintf("tar layout wrote %v non-atomically", p), nil)
 		}
@@ -737,6 +1303,10 @@ func partTar(run *hx.Run, idx int, m mod) {
 	for _, kv := range ikvs {
 		base[kv.K] = kv.V
 	}
+	// what the tar layout serialises = the model's tarEntry
+	run.Case("tarentry\t"+encObjs(m.files, func(p, c string) string { return tokenOf(c) })+"\t"+encObjs(m.sides, plainTok),
+		strings.ReplaceAll(entryEnc(m, base), "=-", "="), true)
+	partTarWriter(run, c, m, r, tb.d.trace, goodTar, base)
 	try := func(how string, tarBytes *string, entry map[string]string, modelTar string) {
 		b := storagemem.NewReadWriteBucket()
 		if tarBytes != nil {
@@ -803,6 +1373,114 @@ func partTar(run *hx.Run, idx int, m mod) {
 		delete(e, p)
 		tb2 := string(tarOf(m, e))
 		try("archive without "+p, &tb2, e, entryEnc(m, e))
+	}
+}
+
+// partTarWriter: the tar store is ONE atomic put.  Over an absent / garbage / older archive:
+// the fault-free store, a store whose k-th step fails, and a crash after j primitives — the
+// object at the tar path is the old one or the complete new archive, and the real reader's
+// verdict equals the model's (atomicRun / atomicPrefix of C15 under loadTar).
+func partTarWriter(run *hx.Run, c caseCtx, m mod, r *hx.Rand, ref []prim, goodTar string, base map[string]string) {
+	nW := 0
+	for _, p := range ref {
+		if p.kind == 'w' {
+			nW++
+		}
+	}
+	older := map[string]string{}
+	for k, v := range base {
+		older[k] = v
+	}
+	for _, p := range keysOf(base) {
+		if strings.HasPrefix(p, "files/") && strings.HasSuffix(p, ".proto") {
+			older[p] = base[p] + "// older"
+			break
+		}
+	}
+	olderTar := string(tarOf(m, older))
+	garbage := "this is not a tar archive"
+	type oldT struct {
+		name  string
+		bytes *string
+		model string
+	}
+	olds := []oldT{{"absent", nil, "absent"}, {"garbage", &garbage, "garbage"}, {"older", &olderTar, entryEnc(m, older)}}
+	steps := map[int]bool{0: true, 1: true, nW: true, nW + 1: true}
+	for i := 0; i < 4 && nW > 2; i++ {
+		steps[2+r.Intn(nW-1)] = true
+	}
+	for _, old := range olds {
+		attempt := func(mode string, k int) {
+			mem := storagemem.NewReadWriteBucket()
+			if old.bytes != nil {
+				must(bk.PutString(ctx, mem, m.tarPath, *old.bytes))
+			}
+			tb := newT(mem)
+			modelK := k
+			switch mode {
+			case "fail":
+				switch {
+				case k == 0:
+					tb.faults[fkey{m.tarPath, 'p', 0}] = true
+				case k <= nW:
+					tb.faults[fkey{m.tarPath, 'w', k - 1}] = true
+				default:
+					tb.faults[fkey{m.tarPath, 'c', 0}] = true
+				}
+			case "crash":
+				tb.crashAt = k
+				if k >= nW+2 {
+					tb.crashAt = -1 // after the Close (= file close + rename): the put is complete
+					modelK = nW + 3
+				}
+			}
+			err := bufmodulestore.NewModuleDataStore(logger, tb, filelock.NewNopLocker(), bufmodulestore.ModuleDataStoreWithTar()).PutModuleDatas(ctx, []bufmodule.ModuleData{m.data})
+			now, gerr := bk.ReadAll(ctx, mem, m.tarPath)
+			how := fmt.Sprintf("tar store over %s archive, %s %d of %d", old.name, mode, k, nW+2)
+			in := map[string]any{"part": "tar", "how": how}
+			// oracle: all-or-nothing, errors reported
+			isOld := (gerr != nil && old.bytes == nil) || (gerr == nil && old.bytes != nil && now == *old.bytes)
+			isNew := gerr == nil && now == goodTar
+			if !isOld && !isNew {
+				c.fail("tar-object-torn", how+": the object at the tar path is neither the previous one nor the complete archive", in)
+			}
+			if mode == "fail" && (err == nil || !isOld) {
+				c.fail("tar-failed-put-visible", fmt.Sprintf("%s: err=%v, old object kept=%v", how, err, isOld), in)
+			}
+			if mode == "ok" && (err != nil || !isNew) {
+				c.fail("tar-store-incomplete", fmt.Sprintf("%s: err=%v", how, err), in)
+			}
+			class, files := loadReal(mem, m, true)
+			kept := "kept"
+			if _, statErr := mem.Stat(ctx, m.tarPath); statErr != nil {
+				kept = "removed"
+			}
+			es := "-"
+			if mode != "crash" {
+				es = "0"
+				if err != nil {
+					es = "1"
+				}
+			}
+			run.Case("tarput\t"+encObjs(m.files, plainTok)+"\t"+encObjs(m.sides, plainTok)+"\t"+old.model+"\t"+strconv.Itoa(nW)+"\t"+mode+"\t"+strconv.Itoa(modelK),
+				"err="+es+"|"+implLoadLine(class, files)+"|"+kept, true)
+			run.Count("tar:writer:" + mode + ":" + strings.SplitN(class, ":", 2)[0])
+			if class == "hit" && !sameFiles(files, m.files) {
+				c.fail("wrong-content-served", how+": tar layout served other content", in)
+			}
+		}
+		attempt("ok", 0)
+		var ks []int
+		for k := range steps {
+			ks = append(ks, k)
+		}
+		sort.Ints(ks)
+		for _, k := range ks {
+			attempt("fail", k)
+		}
+		for _, j := range []int{0, 1, nW, nW + 1, nW + 2} {
+			attempt("crash", j)
+		}
 	}
 }
 
@@ -1076,8 +1754,9 @@ func main() {
 			for _, m := range mods {
 				partCrash(run, i, m)
 				partFaults(run, i, m)
+				partMulti(run, i, m, cr)
 				partTamper(run, i, m, cr)
-				partTar(run, i, m)
+				partTar(run, i, m, cr)
 				partConcurrent(run, i, m, cr, tmpRoot)
 				partProvider(run, i, m, datas)
 			}
